@@ -4,22 +4,36 @@
 import MTVerif.Lemmas.Keys
 import MTVerif.Model.Witness
 import MTVerif.Lemmas.Witness
+import MTVerif.Lemmas.WitnessFull
 namespace MT.C05
 open MT
 
-/-- FULL STATEMENT (proved for the default limit 0 as `infer_witnessed_partial` below; for k > 0 evaluated on every generated case by the Lean `witnessed`
+/-- FULL STATEMENT (proved below: `inferWitnessed_holds`; also evaluated on every generated case by the Lean `witnessed`
     function on the model and by the Python witness oracle on the implementation): the type inferred for a
     non-empty list of well-formed values is witnessed by those values at every nesting position. -/
 def InferWitnessed : Prop :=
   ∀ (k : Nat) (vs : List Val), vs ≠ [] → wfL vs = true → witnessed false vs (infer k vs) = true
+
+/-- C05, tightness, the full statement: for every TypedDict size limit and every non-empty collection of well-formed values,
+    of any shape and nesting, the inferred type is witnessed by those values at every nesting position — every class named is
+    the exact class of an observed value, every union alternative is inhabited, a tuple type has observed tuples of that length,
+    `Any` stands only below an observed empty container, a required TypedDict key is in every observed dict at that position and an
+    optional one in some but not all, and every field type is witnessed by the values stored under its key.
+    (`Lemmas/WitnessTD`: `witnessed` sees the observations as a set, pools observations of one type, respects `==`;
+    `Lemmas/WitnessMerge`: the TypedDict → Dict rewrite keeps a type witnessed, and `shrink_witnessed_groups` — by functional
+    induction over `shrink`, every member type carrying its own observations, with the invariants of inferred types: normal form,
+    TypedDict-free union members, at least one key and at most `k`, disjoint required / optional keys; `Lemmas/WitnessFull`: a
+    value witnesses its own type.) -/
+theorem inferWitnessed_holds : InferWitnessed := by
+  intro k vs hne hwf
+  exact infer_witnessed (fun a b => a == b) (fun c => by simp) k vs hne hwf
 
 /-- `InferWitnessed` at the default `max_typed_dict_size` (0: no TypedDict is ever built — C06 `limit_zero_no_typed_dict`):
     the type inferred for any non-empty collection of values, of any shape and nesting, is witnessed by those values at every
     nesting position: every class named is the exact class of an observed value, every union alternative is inhabited, a
     tuple type has observed tuples of that length, `Any` stands only below an observed empty container
     (`Lemmas/Witness.lean`: monotonicity of `witnessed` on TypedDict-free types, `shrink_witnessed` by functional induction over
-    `shrink`, a value witnesses its own type).  The `k > 0` case (TypedDict merges) is the part of `InferWitnessed` that is
-    evaluated, not proved. -/
+    `shrink`, a value witnesses its own type).  Kept as the simpler special case of `inferWitnessed_holds`. -/
 theorem infer_witnessed_partial (vs : List Val) (hne : vs ≠ []) : witnessed false vs (infer 0 vs) = true :=
   infer_witnessed0 vs hne
 
